@@ -81,6 +81,30 @@ STRENGTHENED = {
  "C07_g": "caught by C07 itself since its histories also remove every installed rule",
  "C10_e": "caught by C10 itself since texts are submitted in the state 'one rule removed'",
  "C10_f": "caught by C10 itself since texts are submitted to an emptied / cleared pool",
+ "C01_k": "missed at first; comparisons of a signed integer at the edge of its range with injected unsigned values at the same edge (UMaxI = 2^63-1, UMaxI+1, UMax ...) added",
+ "C01_l": "caught since integer literals are also printed with leading zeros (0010 is ten)",
+ "C02_k": "missed at first; an EMPTY else-if branch in front of an else that does something added",
+ "C02_l": "missed at first; forRange over a nil map (zero passes) added",
+ "C03_k": "caught since fields of named types over the DSL's kinds (time.Duration, type Level int64, Ratio, Name, Flag) are in the fixture and the conversion matrix",
+ "C03_l": "caught since variadic callees (fixed parameters of other widths, typed tail, nothing / one / several tail arguments) are in the fixture and the reference",
+ "C05_k": "missed at first; one wide-salience rule set in eight uses time stamps as saliences (far above 2^53, a few units apart)",
+ "C05_l": "a stage of more than 64 rules never returns: huge rule sets (66-90 rules) added, and a case of an E2 family that has not finished after 60 s is a violation now (it was inconclusive)",
+ "C06_k": "missed at first; requests that fill only the second object slot of ExecuteRulesWithSpecifiedEM added",
+ "C06_l": "missed at first; every caller now leaves its mark in the result map it received and must not find anyone else's (the cleared-pool phase hands out fresh maps)",
+ "C07_k": "a recursive read lock that wedges the pool when an update lands in between: the wedge did occur in the C07 histories but counted as inconclusive; a wedged history is a violation now",
+ "C09_k": "caught since the conc-stress part calls injected code that comes back into the data context (function, method, three-level method adding / reading / removing a name)",
+ "C09_l": "missed at first; one fault-catalog case in seven uses the smallest rule set with 'other rules' - the faulty rule and one more, above, below or level with it",
+ "C10_k": "caught since valid texts are wrapped in invisible characters (byte-order mark, zero-width / no-break space, form feed, NUL) at the very beginning or end",
+ "C12_k": "caught since unknown names that differ from an existing name only by blanks around it, and rule names ending in a blank, are generated",
+ "C13_k": "caught since one DAG in three (of sets with at least 12 rules) has a WIDE layer with every rule in it, and C13 uses 24-90 rule sets now and then",
+ "C13_l": "missed at first; after the calls of a case all rules are removed now and then and the DAG model is called once more (all names unknown: nothing runs, nothing fails)",
+ "C14_l": "missed at first; the stop-tag variants get name lists with unknown names and lists without any existing name (the call fails like its twin without a tag)",
+ "C15_l": "missed at first; the C15 probe runs two nested loops after a loop that was left by break (9 inner passes); C02 catches it as well",
+ "C17_k": "missed at first; a third of the storms add 20-50 rendezvous rounds in which max requests are released at the same instant, so that hand-backs collide",
+ "C17_l": "caught since N-M requests whose n+m overflows (a panic in the caller's goroutine) are part of the storms",
+ "C19_l": "missed at first; the storm rules read map elements of request data with a string-literal and a variable key (first evaluations race on the shared node)",
+ "C20_k": "caught since a 'loop cut off by the iteration bound' class (may-cite) is generated",
+ "C08_l": "caught since the name alphabet has names that differ only by a blank at the edge",
 }
 rows = []
 for d in sorted(glob.glob('/verif/seeded/C[0-9]*_[a-z]')):
